@@ -67,13 +67,17 @@ def check(prog, rep, tier):
     f = cls.find_method('keepalive_received')
     calls = [n for n in ast.walk(f.node) if isinstance(n, ast.Call) and src_of(n.func) == 'self.write_msg']
     par = parents(f.node)
-    good = len(calls) == 1 and any(isinstance(p, ast.If) and 'write_keepalive' in src_of(p.test)
-                                   for p in ancestors(par, calls[0], f.node))
+    conds_k = common.conds_at(f.node, calls[0]) if len(calls) == 1 else []
+    good = len(calls) == 1 and len(conds_k) == 1 and conds_k[0][1] is True and \
+        'write_keepalive' in src_of(conds_k[0][0])
     if good:
         rep.ok('R20.a', 'callback:keepalive_received', file=f.file, line=f.node.lineno)
     else:
         rep.bad('R20.a', 'callback:keepalive_received', file=f.file, line=f.node.lineno, func=f.qualname,
-                found='%d write_msg call(s), option guard missing' % len(calls), key='callback:keepalive_received')
+                found='%d write_msg call(s); conditions at the call: %s (exactly the keepalive option is expected: '
+                      'every KEEPALIVE of a session is logged when the option is on)' % (
+                          len(calls), [('' if v_ else 'not ') + src_of(t_) for t_, v_ in conds_k]),
+                key='callback:keepalive_received')
     w = cls.find_method('write_msg')
     if w is None:
         raise AnalysisError('write_msg vanished')
@@ -306,6 +310,25 @@ def check(prog, rep, tier):
             for n in ast.walk(ast.Module(body=h.body, type_ignores=[])):
                 if isinstance(n, ast.Raise):
                     raises.append(n)
+    # the newest file is the last one in plain lexicographic order of the names ("<time.time()>.msg"); a key that
+    # is not numeric reorders them
+    sorts = [n for n in ast.walk(g.node) if isinstance(n, ast.Call) and (
+        (isinstance(n.func, ast.Attribute) and n.func.attr == 'sort') or src_of(n.func) == 'sorted')]
+    bad_sort = None
+    for n in sorts:
+        for k in n.keywords:
+            if k.arg == 'reverse' or (k.arg == 'key' and not any(x in src_of(k.value) for x in ('float(', 'Decimal('))):
+                bad_sort = (n, k)
+    if not sorts:
+        rep.undecided('R20.e', 'newest-file-order', file=g.file, line=g.node.lineno, found='no sort of the file list')
+    elif bad_sort:
+        n, k = bad_sort
+        rep.bad('R20.e', 'newest-file-order', file=g.file, line=n.lineno, func=g.qualname,
+                found='the message files are ordered with %s=%s: names are time stamps of varying length, so a newer '
+                      'file can sort before an older one and recovery resumes from the wrong file' % (k.arg, src_of(k.value)),
+                expected='plain lexicographic (or numeric) order, newest last', key='newest-file-order')
+    else:
+        rep.ok('R20.e', 'newest-file-order', file=g.file, line=sorts[0].lineno)
     # lines in the old list format are Python literals (None, tuples, single quotes), not JSON
     legacy = [n for n in ast.walk(g.node) if isinstance(n, ast.If) and "startswith('[')" in src_of(n.test)]
     if legacy:
